@@ -83,8 +83,9 @@ def gen_desc(rng):
                         continue
                     for st_ in sts:
                         # every partner dataset gets its own id (and key) range
-                        if st_['op'] in ('concat', 'zip', 'intersperse'):
-                            st_['offset'] = 100 * (j + 1) + (50 if st_['op'] == 'zip' else 0)
+                        if st_['op'] in ('concat', 'zip', 'intersperse', 'keyzip'):
+                            st_['offset'] = 100 * (j + 1) + (50 if st_['op'] == 'zip' else 0) + \
+                                (70 if st_['op'] == 'keyzip' else 0)
                 b = a
                 for st in sts:
                     b = pargen.abs_apply(b, st) if b is not None else None
